@@ -3,7 +3,8 @@
 (* per-request `_meta` validation (property C06).                            *)
 (*                                                                           *)
 (*  Letters     the message alphabet (method x per-request meta class x      *)
-(*              initialize-params class)                                     *)
+(*              initialize-params class x spelling of the _meta keys on the  *)
+(*              wire)                                                        *)
 (*  Step        the code-shaped transition: ServerSession.handle             *)
 (*              (mcp/server.go), validateRequestMeta (mcp/shared.go),        *)
 (*              handleReceive/checkRequest, ServerSession.initialize /       *)
@@ -66,20 +67,36 @@ MetaComplete(mt) == mt \in {"ok", "noinfo", "newer"}      \* capabilities presen
 InitParamClasses == {"legacy", "unk_old", "unk_new", "modern", "missing", "null"}
 GoodInit(ip) == ip \notin {"missing", "null"}
 
-L(m, mt, ip) == [m |-> m, mt |-> mt, ip |-> ip]
+\* How the member names of the per-request metadata (`_meta` and the three io.modelcontextprotocol/... keys)
+\* are WRITTEN on the wire.  A JSON string may write any character as an escape; the keys contain a
+\* solidus, which JSON serialisers in the field do write escaped:
+\*   plain   every character literally ("io.modelcontextprotocol/protocolVersion")
+\*   esc     every solidus as the two-character escape \/ (PHP's json_encode default)
+\*   uni     one or more characters (the solidus or any other, also of `_meta` itself) as \uXXXX
+\* All three are the SAME JSON text value: a message class (m, mt, ip) means the same request in every
+\* spelling.  Step, PStep and the clauses therefore never look at l.sp - "carrying the 2026-07-28
+\* per-request metadata" is a statement about the JSON value, not about its bytes - and every spelling
+\* of a class must be answered like the plain one.  Only meaningful when there is a _meta (mt # "none").
+Spellings == {"plain", "esc", "uni"}
+
+L(m, mt, ip, sp) == [m |-> m, mt |-> mt, ip |-> ip, sp |-> sp]
 Letters ==
-  {L(MInit, "none", p) : p \in InitParamClasses} \cup
-  {L(MInit, t, "legacy") : t \in MetaClasses \ {"none"}} \cup
-  {L(m, t, "na") : m \in Methods \ {MInit}, t \in MetaClasses}
+  {L(MInit, "none", p, "plain") : p \in InitParamClasses} \cup
+  {L(MInit, t, "legacy", s) : t \in MetaClasses \ {"none"}, s \in Spellings} \cup
+  {L(m, "none", "na", "plain") : m \in Methods \ {MInit}} \cup
+  {L(m, t, "na", s) : m \in Methods \ {MInit}, t \in MetaClasses \ {"none"}, s \in Spellings}
 
 \* the letters whose sequences are enumerated completely
 CoreLetters ==
-  { L(MInit, "none", "legacy"), L(MInit, "none", "missing"), L(MInit, "none", "unk_new"),
-    L(MInited, "none", "na"), L(MPing, "none", "na"), L(MCancel, "none", "na"),
-    L("tools/list", "none", "na"), L("tools/call", "none", "na"),
-    L(MSub, "none", "na"), L(MSetLevel, "none", "na"), L(MRoots, "none", "na"), L(MProgress, "none", "na"),
-    L("tools/list", "ok", "na"), L("tools/list", "nocaps", "na"), L("tools/list", "newer", "na"),
-    L(MDiscover, "ok", "na"), L(MDiscover, "none", "na"), L(MPing, "ok", "na") }
+  { L(MInit, "none", "legacy", "plain"), L(MInit, "none", "missing", "plain"), L(MInit, "none", "unk_new", "plain"),
+    L(MInited, "none", "na", "plain"), L(MPing, "none", "na", "plain"), L(MCancel, "none", "na", "plain"),
+    L("tools/list", "none", "na", "plain"), L("tools/call", "none", "na", "plain"),
+    L(MSub, "none", "na", "plain"), L(MSetLevel, "none", "na", "plain"), L(MRoots, "none", "na", "plain"),
+    L(MProgress, "none", "na", "plain"),
+    L("tools/list", "ok", "na", "plain"), L("tools/list", "nocaps", "na", "plain"), L("tools/list", "newer", "na", "plain"),
+    L(MDiscover, "ok", "na", "plain"), L(MDiscover, "none", "na", "plain"), L(MPing, "ok", "na", "plain"),
+    \* the same JSON in another spelling: an invalid request that must not reach the tool handler, a removed method
+    L("tools/call", "newer", "na", "esc"), L(MPing, "ok", "na", "uni") }
 
 \* ------------------------------------------------------- observations
 \* reply: "result" | "error" | "none"; code: JSON-RPC error code (0 when there is none or the
